@@ -797,7 +797,11 @@ class Pile(Widget, WidgetContainerMixin, WidgetContainerListContentsMixin):
         wtotal = 0
         for w, (f, height) in self.contents:
             if f == WHSettings.PACK:
-                rows = w.rows((maxcol,), focus=focus and self.focus == w)
+                if isinstance(w, Widget) and Sizing.FLOW not in w.sizing() and Sizing.FIXED in w.sizing():
+                    # fixed only widget: same as for the pile as a flow widget
+                    rows = w.pack((), focus and self.focus == w)[1]
+                else:
+                    rows = w.rows((maxcol,), focus=focus and self.focus == w)
                 rows_numbers.append(rows)
                 remaining -= rows
             elif f == WHSettings.GIVEN:
